@@ -8,7 +8,7 @@
 (* the furthest line explained per trace is kept in a TLC register (one worker) and reported at the end.          *)
 EXTENDS Explorer, Json
 
-CONSTANT Canon   \* TRUE: canonical schedule of the silent steps (see TraceNext)
+CONSTANT Level   \* 1, 2 or 3: how much of the schedule of the silent steps is explored (see TraceNext)
 
 VARIABLE l
 
@@ -93,21 +93,29 @@ TraceInit ==
     /\ enq = {} /\ proc = <<>>
     /\ \E i \in Starts : l = i + 1 /\ TLCSet(Trace[i].t, i + 1)
 
-\* With Canon = TRUE every call takes effect atomically at some moment between its Call and its Ret line (the
-\* usual linearizability search): once a process has taken the first internal step of a call, only that process moves
-\* until the call's result is determined.  Every explanation found this way is one of the unrestricted specification,
-\* in which the steps of concurrent calls interleave; traces that stay unexplained are validated again with
-\* Canon = FALSE (all interleavings) before anything is reported.
+\* How much of the schedule of the silent steps is explored (constant Level):
+\*   3  everything: the internal steps of concurrent calls interleave freely;
+\*   2  every call takes effect atomically at some moment between its Call and its Ret line (the usual
+\*      linearizability search): once a process has taken the first internal step of a call, only that process moves
+\*      until the call's result is determined;
+\*   1  in addition a call takes effect only immediately before its own Ret line.
+\* Every explanation found at a lower level is one of the unrestricted specification.  lib/fam_explorer.py validates at
+\* level 1 first and repeats the traces that stay unexplained at level 2, then (histories at most 3 calls wide) 3.
+\* Level 2 loses nothing for the specification with Locked and CheckUnderLock: the list is append-only and only the
+\* append's critical section changes shared state, so a call that misses, fetches, appends and reads again has the
+\* result and effect of the same call done atomically at its append (at its first read if the fetch fails).
+RetEvs == {"LookupRet", "CurrentRet", "AppendRet", "PushRet"}
 Done(pr)       == pr.pc = "idle" \/ pr.pc = "pret" \/ (pr.pc = "ret" /\ pr.kind # "push")
 NotStarted(pr) == (pr.pc = "rd1" /\ ~pr.second) \/ (pr.pc = "ap1" /\ pr.kind = "append")
 Mid(p)         == ~Done(proc[p]) /\ ~NotStarted(proc[p])
+MayStart(p)    == Level > 1 \/ (Trace[l].ev \in RetEvs /\ Trace[l].a.p = p)
 
 TraceNext ==
     /\ ~AtEnd
-    /\ IF Canon /\ \E p \in DOMAIN proc : Mid(p)
+    /\ IF Level < 3 /\ \E p \in DOMAIN proc : Mid(p)
        THEN (\E p \in DOMAIN proc : Mid(p) /\ Internal(p)) /\ UNCHANGED l
        ELSE \/ Logged(Trace[l]) /\ l' = l + 1
-            \/ Silent /\ UNCHANGED l
+            \/ (\E p \in DOMAIN proc : (Level = 3 \/ ~NotStarted(proc[p]) \/ MayStart(p)) /\ Internal(p)) /\ UNCHANGED l
 
 TraceSpec == TraceInit /\ [][TraceNext]_tvars
 
